@@ -207,6 +207,17 @@ def proof_side(prop_file):
     return res
 
 
+def coqchk(prop_file):
+    """independent re-check of the compiled property file and everything it depends on (thorough tier)"""
+    mod = 'LD.P.' + os.path.splitext(os.path.basename(prop_file))[0]
+    rc, out = _run(['coqchk', '-silent', '-o', '-Q', 'theories', 'LD', '-Q', 'props', 'LD.P', mod], 1800, cwd=COQ)
+    m = re.search(r'\* Axioms:(.*?)\n\s*\n\* Constants', out, re.S)
+    axioms = [l.strip() for l in (m.group(1).split('\n') if m else []) if l.strip() and l.strip() != '<none>']
+    unsafe = [sec for sec in ('type-in-type', 'unsafe (co)fixpoints', 'positivity is assumed')
+              if not re.search(re.escape(sec) + r':\s*<none>', out)]
+    return dict(ok=(rc == 0 and m is not None and not unsafe), rc=rc, axioms=axioms, unsafe=unsafe, tail=out[-600:])
+
+
 def run_case_files(vfiles, timeout=900):
     """Compile generated case files in parallel; returns {file: stdout}.  Raises HarnessError on a
     Coq error (an ill-typed case file is a harness bug, not a violation)."""
